@@ -95,6 +95,12 @@ def tasks(tier, seed, selftest=False):
             sk = tuple(a) + tuple(x) + tuple(b)
             S.append(dict(family="U2", skeleton=sk, timebox=15 if q else 600, tag="cfg", params={"A": list(a), "X": list(x), "B": list(b), "cfg": True}))
             S.append(dict(family="D3", skeleton=sk, timebox=10 if q else 600, tag="cfg", params={"A": list(a), "X": list(x), "B": list(b), "cfg": True}))
+    if not selftest:
+        # diagrams with a shortcut edge (a node with parents at different depths), both answer orders
+        for (a, x, b) in [(("fullbfs",), ("pickle",), ("everyseeds",)), (("bfs",), ("pickle",), ("fullbfs",)), (("succ", "succ"), ("pickle",), ("fullbfs",)), (("fullbfs",), ("reclaim", "pickle"), ("summary",))]:
+            sk = tuple(a) + tuple(x) + tuple(b)
+            for order in ("canonical", "reversed"):
+                S.append(dict(family="SKIP3", skeleton=sk, timebox=8 if q else 300, params={"A": list(a), "X": list(x), "B": list(b), "order": order}))
     if q:
         for (a, x, b) in combos[::7]:
             sk = tuple(a) + tuple(x) + tuple(b)
@@ -106,7 +112,7 @@ def main(tier, seed, t0, selftest=False):
     results = common.run_tasks(tasks(tier, seed, selftest))
     return common.finish(PROP, tier, seed, "model_checking", results, t0, selftest=selftest, functions=FUNCTIONS,
                          bounds={"history": "prefix A in " + str(PREFIXES) + "; X in pickle / reclaim / reclaim+pickle; suffix B in " + str(SUFFIXES),
-                                 "families": "U2 (all combinations, time-boxed), D3 (sample in quick, all in thorough)",
+                                 "families": "U2 (all combinations, time-boxed), D3 (sample in quick, all in thorough), SKIP3 (solver-constrained: diagrams with a shortcut edge; canonical and reversed answer order)",
                                  "config": "default, and (tag cfg) the five numeric configuration fields symbolic in {default} u 0..5 on both diagrams",
                                  "compared": "full dumps incl. ids and depths, seeds, has-sets flag, return values; candidate lists are not compared (reclaim may replace them by the seeds, as documented)"},
                          assumptions=["AEON to_aeon/from_aeon round trip preserves functions and variable order (the text is re-attached to its denotation; truth tables are the representative's)",
